@@ -242,7 +242,7 @@ def check(ctx, rep):
                     if eq_float and not plain_bits and not eq_bits and not zero_guard:
                         rep.bad("R-EQ", "R-EQ:" + key, where("hash"), "Q1: %s::hash normalises the value it hashes for .%s, but never tests .%s itself against zero (the test is on another field): +0.0 and -0.0 in .%s are equal with different hashes" % (short, f, f, f))
                         continue
-                    if eq_float and plain_bits and not eq_bits:
+                    if eq_float and plain_bits and not eq_bits and not zero_guard:
                         rep.bad("R-EQ", "R-EQ:" + key, where("hash"), "Q1: %s::eq compares .%s with float == (so +0.0 == -0.0) but hash feeds .%s.to_bits() unnormalised: the two zeros are equal with different hashes" % (short, f, f))
                     else:
                         rep.ok("R-EQ", key, where("hash"), "Q1: .%s: eq %s, hash %s" % (f, "bitwise" if eq_bits else "float ==", "to_bits of a zero-normalised value" if hb and not plain_bits else ("to_bits" if hb else "other")))
